@@ -42,9 +42,10 @@ var corpusCases = []corpusCase{
 		}
 		r.o.Count("corpus:cutprefix")
 	}},
-	// Backward seek with a non-empty Start: the disk backends also return keys that properly
-	// extend prefix‖start; a cached key of that kind is invisible until flushed, a cached
-	// deletion of such a key does not hide it. (Known finding `backward-start-extension`.)
+	// Backward seek with a non-empty Start: the scan starts at the last key having prefix‖start
+	// as a prefix, on every backend and in every cache layer. Before /repo 5043d25 the in-memory
+	// stores filtered key <= prefix‖start: a cached key extending the start point was invisible
+	// until flushed and a cached deletion of such a key did not hide the disk's copy.
 	{allKinds, func(r *runner) {
 		r.o.Line("new 0 "+r.w.nodes[0].kind, "ok")
 		r.opChangeSet(0, []kv{
